@@ -20,7 +20,7 @@ package http2
 //
 // BOUNDS (quick / thorough): K = 2 / 3 events (plus the closing events that bring the stream to quiescence); DATA payload 0..2 symbolic bytes, padding in {none, 0, 2, 255},
 // END_STREAM free; Read buffers of 1..3 bytes; Content-Length absent or 0..2; stream kinds: GET response with body,
-// HEAD response, no response headers yet; initial connection inflow avail in {2^30+65535, 2^31-1-unsent}, unsent in {0, 4093}; stream
+// HEAD response, no response headers yet; initial connection inflow avail in {2^30+65535, 2^31-1-unsent}, unsent in {0, 4093} (thorough: 2^30+65535 / 4093 only, padding in {none, 0, 2}); stream
 // receive window 4 MiB (real default). One live stream, one forgotten stream.
 //
 // KNOWN FINDINGS reached on the unchanged tree (see known_findings.txt, repro/C10/client_*_test.go):
@@ -103,7 +103,11 @@ func c10cData(id uint32, data []byte, padded bool, pad uint8, endStream bool) *D
 // c10cPad chooses the padding of a DATA frame: none, or a Pad Length of 0, 2 (refund of 3 bytes: exactly reaches
 // inflowMinRefresh from 4093 batched bytes) or 255. Concrete values keep the ledger arithmetic out of the solver.
 func c10cPad() (bool, uint8) {
-	switch vfChoice("padding", 4) {
+	k := 4
+	if vfTier() > 0 {
+		k = 3 // thorough: none, 0, 2
+	}
+	switch vfChoice("padding", k) {
 	case 1:
 		return true, 0
 	case 2:
@@ -160,10 +164,13 @@ func VerifC10_clientLedger() {
 	// connection receive window: the real initial value or the largest legal one, with the batched (not yet
 	// announced) credit either empty or just below the inflowMinRefresh threshold, so that a refund of a few bytes
 	// crosses it and a WINDOW_UPDATE goes out. (Concrete values: a fully symbolic start made every path solver-bound.)
-	u0 := int32(4093 * vfChoice("unsent0", 2))
+	u0 := int32(4093)
 	a0 := int32(h2cConnRecvWindow)
-	if vfChoice("avail0", 2) == 1 {
-		a0 = 1<<31 - 1 - u0
+	if vfTier() == 0 { // thorough spends its budget on one more event instead of the start-state variants
+		u0 = int32(4093 * vfChoice("unsent0", 2))
+		if vfChoice("avail0", 2) == 1 {
+			a0 = 1<<31 - 1 - u0
+		}
 	}
 	cc.inflow = inflow{avail: a0, unsent: u0}
 	l := &c10cLedger{h: h, configured: int64(cc.inflow.avail) + int64(cc.inflow.unsent), peer: int64(cc.inflow.avail)}
